@@ -333,6 +333,8 @@ def _ccf_run(ctx, rng, case, refill):
         cfg.max_swaps = rng.choice([1, 2, 4])
     if prebuilt is None:
         keys = ck.gen_keys(rng, cfg, rng.randint(3, 10) if not refill else rng.randint(5, 14))
+    if prebuilt is None:
+        keys = ck.with_zero_fp_keys(ctx, rng, cfg, keys, p=0.0)  # (p=0: only the small-fingerprint part of the helper; zero fingerprints follow below)
     if prebuilt is None and cfg.hf is None and not cfg.err_bits and rng.random() < 0.2:
         # keys whose raw fingerprint is 0 (the value that marks an empty slot in the export format, so the library stores another one):
         # they form ONE fingerprint class like any other colliding keys.  Keys with raw fingerprint 1 are left out, so that whatever
